@@ -124,6 +124,14 @@ fn val(b: &[u8], i: &mut usize) -> Result<Value, String> {
                 *i += 1;
             }
             let t = std::str::from_utf8(&b[st..*i]).map_err(|e| e.to_string())?;
+            if !t.contains(|c| c == '.' || c == 'e' || c == 'E') {
+                if let Ok(u) = t.parse::<u64>() {
+                    return Ok(Value::Number(Number::from(u)));
+                }
+                if let Ok(i) = t.parse::<i64>() {
+                    return Ok(Value::Number(Number::from(i)));
+                }
+            }
             let f: f64 = t.parse().map_err(|_| format!("number '{}' at {}", t, st))?;
             Ok(Number::from_f64(f).map(Value::Number).unwrap_or(Value::Null))
         }
